@@ -372,7 +372,7 @@ static void run_cfg(const char *prop_unused)
   (void) prop_unused;
   memset(&vk_cfg, 0, sizeof vk_cfg);
   vk_cfg.sched_on = 1;
-  vk_cfg.sched_bound = 2;
+  vk_cfg.sched_bound = hx_tier || !C.deadline ? 2 : 1; /* quick: two scheduling deviations without a deadline, one with */
   vk_cfg.vlimit = 24;
   vk_cfg.hello_lite = 1;
   if (C.faults) {
